@@ -41,7 +41,8 @@ def expected_nondefault_ids(spec):
             if len(ch) > 1 and 0 < len(comp) < len(ch):
                 out.append(pg.Any(*[build.node(c) for c in comp]).id)
         for j, c in enumerate(n["c"]):
-            rec(c, negated or k in ("XNor", "Not") or (k == "Imply" and j == 0))
+            # XNor keeps its arguments un-negated in its "at most one" half, so a default below an XNor survives
+            rec(c, negated or k == "Not" or (k == "Imply" and j == 0))
     rec(spec, False)
     return out
 
@@ -133,7 +134,7 @@ def check(case, ev):
     by_id = {}
     for x in oracle.walk(c):
         by_id.setdefault(x.id, set()).add(id(x))
-    if any(len(by_id.get(i, ())) > 1 for i in nd_ids):
+    if any(len(by_id.get(i, ())) > 1 for i in nd_ids) or common.ambiguous_prio(c):
         ev.count("skipped_ambiguous_branch_sharing")
         return
     # default prio vector: -2 exactly on the non-default branches
